@@ -77,6 +77,42 @@ CHECKS.update({
     ),
 })
 
+CHECKS.update({
+    "C05": (
+        "stateful property-based testing with before/after snapshots per add (metamorphic step invariant) + exhaustive short histories",
+        "Every add step of random histories over all three counter types (log draws planted arbitrarily) is observed through the table, "
+        "n_added and the estimates of every universe key; exact post-conditions for the added key, monotonicity and the conservative-update "
+        "bound for all other keys, and the one-cell-per-row diff are asserted. All histories of length <= 2 (quick) / 3 (thorough) are enumerated for two shapes.",
+        "Trusts the probe-derived cell map; log draws are planted through the documented rand_nums/rand_ptr attributes.",
+        "7/C05",
+    ),
+    "C06": (
+        "exhaustive counter x configuration x boundary-draw enumeration, exact replay of the generator stream, DKW test against the exact Markov chain, stateful lower-bound machine",
+        "The advance rule is decided exactly for every enumerated counter of every grid configuration with draws planted on either side of "
+        "the decision boundary; freshness of the draws is decided by comparing every observed batch with the next unused slice of Numba's "
+        "generator stream; the law of the counter after N adds is compared with the exact chain (finite-sample DKW band); the lower bound is "
+        "checked on random histories with adversarial draws.",
+        "Trusts the Python model of the update law and Numba's generator being seeded through a jitted np.random.seed; statistical parts use delta=1e-10 per comparison.",
+        "7/C06",
+    ),
+    "C09": (
+        "exhaustive / sampled counter-pair enumeration with a vectorised reference decode (differential), Hypothesis small odd shapes",
+        "Tables are assigned directly so that one merge covers all 65 536 log8 pairs (every grid configuration), every log16 counter against "
+        "empty/itself, >= 10^6 sampled log16 pairs per configuration, all 2^32 pairs of the default log16 configuration in the thorough tier, "
+        "and boundary-biased small odd shapes for all kinds; each merged cell is compared with the documented rule.",
+        "Trusts the own decode computed from the public base; ties and the max_count switch get an explicit 1e-9 dead band.",
+        "7/C09",
+    ),
+    "C18": (
+        "configuration-grid enumeration + Hypothesis-drawn configurations + stateful property-based testing at the ceiling",
+        "Every grid configuration must either be rejected with ValueError or decode its ceiling to max_count; histories whose adds and merges land "
+        "within 3 of the ceiling (linear, heavy hitters, small-max_count log sketches with planted draws) are checked for monotone estimates, "
+        "sticky ceilings and exact heavy-hitter counts of keys that are alone in a cell.",
+        "1e-6 relative tolerance on the decoded ceiling (the repository's own test tolerance).",
+        "7/C18",
+    ),
+})
+
 NOT_YET = {}
 
 
